@@ -325,7 +325,15 @@ class Properties(Container):
         # Check the properties
         # ------------------------------------------------------------
         if ignore_fill_value:
-            ignore_properties += ("_FillValue", "missing_value")
+            if not ignore_properties:
+                ignore_properties = ()
+            elif isinstance(ignore_properties, str):
+                ignore_properties = (ignore_properties,)
+
+            ignore_properties = tuple(ignore_properties) + (
+                "_FillValue",
+                "missing_value",
+            )
 
         self_properties = self.properties()
         other_properties = other.properties()
